@@ -29,7 +29,7 @@ CONDITIONS = [
     X("provider-lookup", "c11.py", "h_provider_lookup", timeout=300, samples=10, what="TZP.timezone: id cleaning, Windows names, unknown id -> None; both providers", bound="6 ids x 3 decorations x 2 providers"),
 ] + [X("zoned", "c11.py", "h_zoned", timeout=400, samples=10, params={"z": z, "pytz_provider": pz},
        tiers=("quick", "thorough") if (not pz or z in (0, 2, 5, 7)) else ("thorough",),
-           what="real zones: written wall fields + TZID=key; parsed wall time, zone id and the provider's offset for that wall time", bound="12 wall times x single/list/period x zoneinfo/pytz tzinfo source")
+           what="real zones: written wall fields + TZID=key; parsed wall time, zone id and the provider's offset for that wall time", bound="12 wall times x single/list/period start/explicit period end x zoneinfo/pytz tzinfo source")
      for z in range(10) for pz in (False, True)
 ] + [X("utc-property", "c11.py", "h_utc_property", timeout=600, samples=10, params={"p": p, "pytz_provider": pz},
        tiers=("quick", "thorough") if (not pz or p in (0, 3)) else ("thorough",),
